@@ -87,6 +87,17 @@ Ltac ops_R_in H :=
      osinh ocosh oatanh ofabs ofloor oatan2 ocopysign ornd32 ocsqrt_re ocsqrt_im
      opi onan oinf olt ole oeq one ogt oge otrunc ofinite osignbit] in H.
 
+(* discharge a non-zero side condition of `field` from a hypothesis stating that
+   the same polynomial (possibly written differently) is non-zero *)
+Ltac nz_from H :=
+  let E := fresh "E" in intro E; apply H; etransitivity; [ | exact E ]; ring.
+Ltac nz_auto :=
+  repeat split;
+  match goal with
+  | |- _ <> _ => first [ assumption | lra
+        | match goal with H : _ <> _ |- _ => solve [nz_from H] end ]
+  end.
+
 (* equality of generated lists, component by component *)
 Ltac list_eq tac :=
   repeat match goal with
